@@ -464,6 +464,7 @@ def handleFn (vectors ctx ir : String) : String :=
       let firstErr : Option GenErr := gens.findSome? (fun g => match g.2 with | .error e => some e | .ok _ => none)
       match firstErr with
       | some (GenErr.panic site) => "panic " ++ panicCategory site
+      | some (GenErr.diag _) => "generate-error"
       | some (GenErr.unsupported _) => "unsupported"
       | none =>
         let astProg : List (Nat × HlslAst.Func) := gens.filterMap fun g => match g.2 with | .ok a => some (g.1, a) | .error _ => none
